@@ -666,6 +666,12 @@ def guarded(fn):
             head = msg.split(':')[0].strip()
             rid = head if ':' in msg and len(head) < 16 and ' ' not in head else fn.__name__
             return _ErrorResult(rid, msg)
+        except (AttributeError, TypeError, KeyError, IndexError, ValueError) as e:
+            # an analysis walking an unexpected tree shape: the rule could not decide - reported like a lost anchor (never a silent pass, never a
+            # traceback that hides the sibling rules' findings)
+            import traceback
+            tb = traceback.extract_tb(e.__traceback__)[-1]
+            return _ErrorResult(fn.__name__, '%s: internal %s at %s:%d (%s)' % (fn.__name__, type(e).__name__, os.path.basename(tb.filename), tb.lineno, e))
     return wrapper
 
 
